@@ -470,3 +470,42 @@ ADDED = {
 }
 for _pid, _txt in ADDED.items():
     CHECKS[_pid]["text"] += " " + _txt
+CHECKS["C06"]["text"] += (
+    " Which features an observation reads, and in which order, is chosen per "
+    "history (one feature, or all in a rotated order); two plug-in features "
+    "depend on the computed area_um / time, and histories that edit the "
+    "pixel size or frame rate also run on a dataset whose area_um is "
+    "computed.")
+CHECKS["C20"]["text"] += (
+    " An integer-typed feature runs on every NaN-free history and all "
+    "histories in which the stored summaries go missing are kept in the "
+    "quick tier.")
+CHECKS["C04"]["text"] += (
+    " HierarchyImpl transcribes the bookkeeping of manual exclusions "
+    "(hfilter.py, mapper.py, base.py) and TLC compares it with the "
+    "specification through a ghost variable (repaired parent hash: "
+    "invariants hold; pinned parent hash: counter-example). Focused runs "
+    "with root windows of equal size drive 3 and 4 nested children; access "
+    "patterns (negative index, slice, boolean mask) and reported shapes of "
+    "image/mask/contour/trace are compared at the last refresh.")
+CHECKS["C14"]["text"] += (
+    " Chains, k-cycles, cycles off the root and diamonds over 4..6 files "
+    "and files without any identifier are enumerated as well; features "
+    "behind a network hop are not demanded (dclab's 0.5 s probe).")
+CHECKS["C17"]["text"] += (
+    " The adversarial pool includes a byte-swapped pair (same bytes, shape "
+    "and item size, other values).")
+CHECKS["C18"]["text"] += (
+    " The spill/correct law also goes through the dataset features "
+    "flN_max_ctc (three channels and every pair, coefficients incl. exact "
+    "zeros); get_volume(fix_orientation=True) must return one of the two "
+    "orientations' volumes.")
+CHECKS["C13"]["text"] += (
+    " The index corruption comes as a permutation and as consecutive values "
+    "with an offset.")
+CHECKS["C16"]["text"] += (
+    " The event limit is applied twice on one dataset with the same number "
+    "but another set of eligible events and compared with a fresh dataset.")
+CHECKS["C01"]["text"] += (
+    " Log lines include one with more UTF-8 bytes than characters beyond "
+    "the default width (also in the C02 and C08 inputs).")
